@@ -173,7 +173,8 @@ def check_handoff(ctx, P):
         outvar = strip(p.kids[0]).did
     elif p is not None and p.k == "DeclStmt":
         outvar = ([dc["did"] for dc in p.d["decls"] if dc.get("init") is not None and f.nodes[dc["init"]].contains(pops[0])] or [None])[0]
-    wc = [d for d, i in f.local_by_did.items() if i["name"] == "wake_count"]
+    from rules import returned_local
+    wc = [returned_local(f)] if returned_local(f) is not None else []
     if outvar is None or not wc:
         raise AnalysisBroken("wake_from_mpsc_queue: result / wake_count variables not found")
     ispop = lambda n: n is pops[0] or (n.k == "BinaryOperator" and n.op == "=" and n.contains(pops[0]))
